@@ -218,7 +218,14 @@ class Canon(object):
         self._collect_consts()
         for m in self.prog.modules.values():
             for fn, cls in self._functions(m):
-                self._canon_function(fn, cls, m)
+                backup = copy.deepcopy(fn.body)
+                try:
+                    self._canon_function(fn, cls, m)
+                except RecursionError:
+                    raise
+                except Exception as ex:      # an unmodelled construct: leave this one function as written, never lose the program
+                    fn.body = backup
+                    self.stats.setdefault('failed', []).append('%s.%s: %s: %s' % (m.name, fn.name, type(ex).__name__, ex))
         return self
 
     def _functions(self, m):
@@ -345,7 +352,7 @@ class Canon(object):
         T().visit(fn)
 
     # ---------------------------------------------------------------- B. helpers
-    def _resolve_callee(self, call, fn, cls, m, closures):
+    def _resolve_callee(self, call, fn, cls, m, closures, hb=None):
         """-> (callee FunctionDef, receiver expr or None, kind) for an inlinable callee, else None."""
         f = call.func
         first = self._first(fn, cls)
@@ -354,7 +361,7 @@ class Canon(object):
         if isinstance(f, ast.Name):
             if f.id in closures:
                 return closures[f.id], None, 'closure'
-            if f.id in VOCAB_FUNCS or f.id in bound_names(fn):
+            if f.id in VOCAB_FUNCS or f.id in (hb if hb is not None else bound_names(fn)):
                 return None
             r = m.functions.get(f.id)
             if r is None and f.id in m.imports:
@@ -370,7 +377,7 @@ class Canon(object):
             recv = None
             if isinstance(f.value, ast.Name) and first is not None and f.value.id == first:
                 owner, recv = cls, f.value
-            elif isinstance(f.value, ast.Name) and f.value.id not in bound_names(fn):
+            elif isinstance(f.value, ast.Name) and f.value.id not in (hb if hb is not None else bound_names(fn)):
                 r = self.prog.lookup(m, f.value.id)
                 if hasattr(r, 'mro'):
                     owner = r
@@ -502,7 +509,7 @@ class Canon(object):
                     continue
                 for n in ast.walk(e):
                     if isinstance(n, ast.Call):
-                        r = canon._resolve_callee(n, fn, cls, m, closures)
+                        r = canon._resolve_callee(n, fn, cls, m, closures, host_bound)
                         if r is not None and callee_ok(r[0]) and r[0] is not fn:
                             out.append((n, r))
             return out
